@@ -37,7 +37,7 @@ META = {
             "k / n / radius / voxel sizes derived from the cloud's own distance spectrum incl. exact hits of the radius and "
             "of cell boundaries on fixed-point clouds, dtype float32/float64, batch shapes where documented); points are "
             "shuffled so that outliers sit at arbitrary positions; hand-made corner clouds first (1..3 points, one voxel, "
-            "nothing retained, #retained <= k), then a FIXED-SEED CORPUS of 1117 cases independent of VERIF_SEED (per stream "
+            "nothing retained, #retained <= k), then a FIXED-SEED CORPUS of 1291 cases independent of VERIF_SEED (per stream "
             "ord x dtype x kind crossed with: magnitudes 2^-400..2^400 (f32: 2^-40..2^30), exact radius hits / 0 / inf, "
             "duplicates, k >= 17 and N2 > 40, every flag combination, memory layouts cols/rows/transposed/expanded, one "
             "tensor in two roles, mixed-regime batches, RNG extremes, 36 call histories on caller-held tensors with one "
@@ -62,8 +62,16 @@ META = {
         "index attaining the tied distance is accepted",
         "voxel sizes are float32-representable: the code converts `voxel` with torch.tensor(voxel) (float32) "
         "whatever the dtype of the cloud, so the grid of a float64 cloud is the float32-rounded one",
-        "knn: dim = -1 (the default) only",
-        "camera: pinhole intrinsics [[fx,0,cx],[0,fy,cy],[0,0,1]] with fx, fy != 0 for the inverse clauses; "
+        "knn: dim = -1 (the default) only (another `dim` is used by the code for both the norm and topk and has no model); "
+        "sorted=False has no model either: the harness checks it on the real code as a set (k smallest / largest, any order); "
+        "the values torch.topk returns are compared with the distances at the returned indices by the harness only; rows of ref "
+        "and nbr have one common width (knn_api_spec)",
+        "entry points at degenerate sizes (voxel=[], pdim=0 or width-0 points, the empty cloud (0, D)) are outside the property's "
+        "quantifier (1..300 points, 1..6 dimensions): there the check is differential — implementation raises <=> the entry-point "
+        "model rejects (`*_api_spec`), plus a brute-force count for nbr_filter",
+        "camera: the clause 'point2pixel and pixel2point are mutually inverse' is about intrinsics of the exact form "
+        "[[fx,0,cx],[0,fy,cy],[0,0,1]] with fx, fy != 0: with a skew entry or a last row (0,0,w), w != 1, it is FALSE of code and model "
+        "(pixel_point_inverse_iff_no_skew, pixel_point_inverse_iff_unit_last_row); general 3x3 matrices are used for point2pixel / reprojerr alone; "
         "|depth| >= finfo.tiny (homo2cart clamps the divisor); batch shapes of (points/pixels, depth, intrinsics, "
         "extrinsics) are broadcastable",
     ],
